@@ -537,6 +537,66 @@ func checkCRCTable(p *core.Program, r *core.Report, rule string) {
 		}
 		return
 	}
+	// a table computed when the package is initialised (var table = makeTable()): the initialiser is
+	// run by the closed-code evaluator and the 256 values it yields are compared like a literal's
+	for _, f := range pk.Syntax {
+		for _, d := range f.Decls {
+			gd, ok := d.(*ast.GenDecl)
+			if !ok || gd.Tok != token.VAR {
+				continue
+			}
+			for _, sp := range gd.Specs {
+				vs := sp.(*ast.ValueSpec)
+				for i, nm := range vs.Names {
+					if i >= len(vs.Values) {
+						continue
+					}
+					if _, isCall := ast.Unparen(vs.Values[i]).(*ast.CallExpr); !isCall {
+						continue
+					}
+					v, _ := pk.TypesInfo.Defs[nm].(*types.Var)
+					if v == nil {
+						continue
+					}
+					n := int64(-1)
+					switch t := v.Type().Underlying().(type) {
+					case *types.Array:
+						n = t.Len()
+					case *types.Slice:
+						n = 256
+					}
+					if n != 256 {
+						continue
+					}
+					var anyFi *core.FuncInfo
+					for _, fi := range p.Funcs {
+						if fi.Pkg == pk {
+							anyFi = fi
+							break
+						}
+					}
+					if anyFi == nil {
+						continue
+					}
+					ce := &constEvaluator{p: p}
+					val, ok := ce.evalPkgVar(anyFi, v)
+					if !ok || val == nil || val.k != 'a' || len(val.arr) != 256 {
+						continue
+					}
+					for k, got := range val.arr {
+						c := fmt.Sprintf("util/hash.table[%d]", k)
+						u := uint64(got)
+						if uint32(u) != want[k] || (u>>32 != 0 && u>>32 != 0xffffffff) {
+							r.Viol(rule, c, p.Pos(nm.Pos()), fmt.Sprintf("the computed entry is %#x, CRC-32/IEEE table has %#x: every hash through this entry changes (persisted identifiers)", u, want[k]))
+						} else {
+							r.OK(rule, c, p.Pos(nm.Pos()), "computed at initialisation")
+						}
+					}
+					return
+				}
+			}
+		}
+	}
 	r.Undec(rule, "util/hash.table", "-", "table variable not found")
 }
 
